@@ -225,12 +225,16 @@ B1BIG = _s([0, 1024, .5, 0, 1024, .5], [.5, .5, 0, .5, .5, 0])    # B[1] three o
 
 B1EQ3T0 = _s([0, 3, 2, 0, 3, 0], [1, 1, 0, 1, 1, 0])      # B[1] = 3 T[0]: a 2-1 majority costs as much as a tie
 
+# every pair unranked together costs 2**40 whatever its placement: scores share a huge constant (~1e12) and differ
+# by units (all sums stay below 2**53, hence exact)
+B5T5HUGE = _s([0, 1, 1, 0, 1, 2 ** 40], [1, 1, 0, 1, 1, 2 ** 40])
+
 SCHQ = [
     ('unifying', UNIFYING), ('unifying_p05', UNIFYING_05), ('induced', INDUCED), ('induced_p05', INDUCED_05),
     ('pseudo', PSEUDO), ('pseudo_p05', PSEUDO_05), ('extended', EXTENDED), ('unifying_x3', UNIFYING_X3),
     ('induced_x05', INDUCED_X05), ('positional', POSITIONAL), ('zero_heavy', ZERO_HEAVY), ('b3ltb4', B3LTB4),
     ('b5gtt5', B5GTT5), ('b5ltt5', B5LTT5), ('unifB_otherT', UNIF_B_OTHER_T), ('indB_otherT', IND_B_OTHER_T),
-    ('unifying_p0375', UNIFYING_P0375), ('b5eqt5', B5EQT5), ('b1big', B1BIG),
+    ('unifying_p0375', UNIFYING_P0375), ('b5eqt5', B5EQT5), ('b1big', B1BIG), ('b5t5huge', B5T5HUGE),
 ]
 SCHQ_BY_NAME = dict(SCHQ)
 for _n, (_b, _t) in SCHQ:
